@@ -6,8 +6,9 @@ Model: lean/Ladybug/Model/Plot.lean (on Model/AP.lean, Model/Cal.lean); theorems
 The model describes hourlyplot.py / monthlychart.py WITH fixes/C17_hourlyplot_num_y.patch,
 fixes/C17_hourlyplot_reverse_by_doy.patch and fixes/C17_daily_bars_first_month.patch applied.
 """
+import contextlib
+import io
 import math
-import struct
 from datetime import datetime, timedelta
 from fractions import Fraction
 
@@ -139,7 +140,7 @@ def _rand_ap(rng, kind=None):
     if kind == 'day':
         ln = 1
     else:
-        ln = rng.choice([1, 2, 3, 5, 31, 32, 40]) if rng.random() < 0.8 else rng.randrange(1, 90)
+        ln = rng.choice([1, 2, 3, 5, 8, 31, 32]) if rng.random() < 0.85 else rng.randrange(1, 60)
     if kind in ('wrap', 'wrapwin'):
         d0 = ndays - rng.choice([1, 2, 3, 10])
         ln = ndays - d0 + rng.choice([1, 2, 5])
@@ -414,6 +415,10 @@ def _wr_case(rng, n=None):
             k = rng.randrange(0, n)
             d = k * sect + rng.uniform(-0.49, 0.49) * sect
             d = d + rng.choice([0, 0, 0, 360])
+        if not exact:                    # keep clear of the (float-rounded) sector edges
+            x = (Fraction(float(d)) % 360 + Fraction(180, n)) / Fraction(360, n)
+            if abs(x - round(x)) < Fraction(1, 1000):
+                d = float(d) + sect / 4
         dirs.append(float(d))
         q = rng.random()
         spd.append(0.0 if q < 0.15 else 1e-11 if q < 0.2 else 1e-10 if q < 0.25 else 2e-10 if q < 0.3
@@ -442,16 +447,6 @@ def _build_wr(c):
     else:
         acol = HourlyContinuousCollection(Header(Temperature(), 'C', ap), list(c['spd']))
     return WindRose(dcol, acol, c['n'])
-
-
-def _wr_canon(s):
-    """bins as exact value lists; calm count; prevailing directions rounded to 1e-9."""
-    if not s.startswith('ok'):
-        return s
-    head, z, prev = s[2:].split('#')
-    bins = [[str(Fraction(t)) for t in b] for b in _lists('ok ' + head)]
-    pv = ['%.9f' % float(Fraction(t)) for t in prev.split()]
-    return 'ok %s # %s # %s' % (bins, z.strip(), pv)
 
 
 def _wr_impl(c):
@@ -486,17 +481,19 @@ def _bars_case(rng, daily=False):
         stM = rng.randrange(1, 13)
         stD = rng.choice([1, 1, 2, 15, _mdays(leap, stM)])
         stD = min(stD, _mdays(leap, stM))
-        ndays = rng.choice([1, 3, 20, 31, 45, 70])
+        ndays = rng.choice([2, 3, 20, 31, 45, 70])
         a = datetime(_year(leap), stM, stD)
         b = a + timedelta(days=ndays - 1)
         if b.year != a.year:
             b = datetime(_year(leap), 12, 31)
+        if b == a:
+            a = a - timedelta(days=1)
         ndays = (b - a).days + 1
         period = [a.month, a.day, 0, b.month, b.day, 23, 1, leap]
         npts = ndays
     else:
-        stM = rng.randrange(1, 13)
-        enM = rng.randrange(stM, 13)
+        stM = rng.randrange(1, 12)
+        enM = rng.randrange(stM + 1, 13)       # (single-value collections fail validation: C13's subject)
         period = [stM, 1, 0, enM, _mdays(leap, enM), 23, 1, leap]
         npts = enM - stM + 1
     datas = []
@@ -591,13 +588,6 @@ def _bars_impl(c):
                             for m in mc.data_meshes)
 
 
-def _bars_canon(s):
-    """Numbers rounded to 1e-7 absolute (float evaluation vs exact rationals)."""
-    if not s.startswith('ok'):
-        return s
-    return 'ok ' + ' '.join('| ' + ' '.join('%.7f' % (float(Fraction(t)) + 0.0) for t in b) for b in _lists(s))
-
-
 # ---- psychrometric chart
 
 
@@ -662,17 +652,67 @@ def _psy_impl(c):
     return ('ok %d ' % len(cells)) + ' '.join('%d %d %d' % (y, x, int(round(v))) for (y, x), v in zip(cells, hv))
 
 
+
+def _num_close(a, b, tol=1e-9):
+    fa, fb = float(Fraction(a)), float(Fraction(b))
+    return abs(fa - fb) <= tol * max(1.0, abs(fa), abs(fb))
+
+
+def _same_numbers(mo, io, exact_head=False):
+    """Token-wise comparison of two response lines: structure tokens must be equal, numbers close."""
+    if not (mo.startswith('ok') and io.startswith('ok')):
+        return mo == io
+    ta, tb = mo.split(), io.split()
+    if len(ta) != len(tb):
+        return False
+    for x, y in zip(ta, tb):
+        if x == y:
+            continue
+        try:
+            if not _num_close(x, y):
+                return False
+        except (ValueError, ZeroDivisionError):
+            return False
+    return True
+
+
+def compare_numeric(ctx, op, cases, model_line, impl_fn, key=None):
+    """Like core.compare_batch, for responses whose numbers come from float arithmetic on the
+    implementation side and exact rationals on the model side (relative tolerance 1e-9)."""
+    lines = [model_line(c) for c in cases]
+    outs = ctx.driver().run(lines)
+    for c, line, mo in zip(cases, lines, outs):
+        try:
+            io = impl_fn(c)
+        except Exception as e:
+            io = 'err:' + err_name(e)
+        ctx.compared += 1
+        ctx.count('op:' + op)
+        ctx.case((op, key(c) if key else line), nontrivial=not io.startswith('err:'))
+        if io.startswith('err:'):
+            ctx.count('err_results')
+        if not _same_numbers(mo, io):
+            ctx.disagree(op, {'case': c, 'line': line}, mo[:2000], io[:2000])
+    if cases:
+        ctx.sample({'op': op, 'request': lines[0][:300], 'model': outs[0][:300]})
+
+
 # ---------------------------------------------------------------------------------------------
 # correspondence
 
 
 def correspondence(ctx):
+    with contextlib.redirect_stdout(io.StringIO()):      # AnalysisPeriod prints when it clips a day
+        _correspondence(ctx)
+
+
+def _correspondence(ctx):
     rng = ctx.rng
     # hourly plot
     cases = list(HP_CORPUS)
-    for _ in range(ctx.n(260, 2500)):
+    for _ in range(ctx.n(300, 2500)):
         cases.append(_hp_case(rng))
-    for _ in range(ctx.n(40, 300)):
+    for _ in range(ctx.n(25, 300)):
         cases.append(_same_day_number_case(rng, rev=rng.random() < 0.8))
     for c in cases:
         ap = c['ap']
@@ -706,8 +746,8 @@ def correspondence(ctx):
     for c in wc:
         ctx.count('wrose:n=%s' % ('exact' if c['n'] in EXACT_N else 'inexact'))
         ctx.count('wrose:calm samples', sum(1 for v in c['spd'] if not v > 1e-10))
-    compare_batch(ctx, 'wrose', wc, _wr_line, _wr_impl, canon=_wr_canon,
-                  key=lambda c: (c['n'], c['speed'], tuple(c['dirs']), tuple(c['spd'])))
+    compare_numeric(ctx, 'wrose', wc, _wr_line, _wr_impl,
+                    key=lambda c: (c['n'], c['speed'], tuple(c['dirs']), tuple(c['spd'])))
     ac = list(range(1, 37)) + [72, 360]
     outs = ctx.driver().run(['angles %d' % n for n in ac])
     from ladybug.windrose import WindRose
@@ -722,12 +762,12 @@ def correspondence(ctx):
     for c in bc:
         ctx.count('mbars:stack=%s' % c['stack'])
         ctx.count('mbars:collections=%d' % len(c['units']))
-    compare_batch(ctx, 'mbars', bc, _bars_line, _bars_impl, canon=_bars_canon, key=lambda c: repr(c))
+    compare_numeric(ctx, 'mbars', bc, _bars_line, _bars_impl, key=lambda c: repr(c))
     dc = [_bars_case(rng, True) for _ in range(ctx.n(120, 1200))]
     for c in dc:
         ctx.count('dbars:start day %s' % ('1' if c['period'][1] == 1 else '>1'))
         ctx.count('dbars:months=%d' % (c['period'][3] - c['period'][0] + 1))
-    compare_batch(ctx, 'dbars', dc, _bars_line, _bars_impl, canon=_bars_canon, key=lambda c: repr(c))
+    compare_numeric(ctx, 'dbars', dc, _bars_line, _bars_impl, key=lambda c: repr(c))
     # psychrometric chart
     pc = [_psy_case(rng) for _ in range(ctx.n(100, 1000))]
     compare_batch(ctx, 'psych', pc, _psy_line, _psy_impl, key=lambda c: repr(c))
@@ -797,7 +837,7 @@ def _check_hp(inp):
             return {'required': 'colour of value %r' % pv, 'observed': str(colr), 'sig': dict(sig, clause='colour')}
     # second identification of the datum behind a face: distinct legend colours, one per id
     n = len(vals)
-    if 2 <= n <= 3000:
+    if 2 <= n <= 600:
         try:
             from ladybug.legend import LegendParameters
             cols = _distinct_colors(n)
@@ -951,18 +991,17 @@ def _check_bars(inp):
                             'sig': dict(sig, clause='month_column')}
         # heights affine in the values (one common slope and intercept per collection)
         hs = [b[3] - b[1] for b in bars]
-        pts = sorted(set(zip(data, hs)))
-        xs = sorted(set(p[0] for p in pts))
-        if len(pts) != len(xs):
-            return {'required': 'equal values -> equal heights', 'observed': str(pts)[:120],
-                    'sig': dict(sig, clause='affine')}
-        if len(xs) >= 2:
-            (v0, h0), (v1, h1) = pts[0], pts[-1]
+        tol = 1e-7 * (1 + max(abs(h) for h in hs))
+        pts = sorted(zip(data, hs))
+        (v0, h0), (v1, h1) = pts[0], pts[-1]
+        if v1 > v0:
             slope = (h1 - h0) / (v1 - v0)
-            tol = 1e-7 * (1 + max(abs(h) for h in hs))
-            if slope <= 0 or any(abs(h0 + slope * (v - v0) - h) > tol for v, h in pts):
-                return {'required': 'heights affine and increasing in the values', 'observed': str(pts)[:160],
-                        'sig': dict(sig, clause='affine')}
+            bad = slope <= 0 or any(abs(h0 + slope * (v - v0) - h) > tol for v, h in pts)
+        else:
+            bad = any(abs(h - h0) > tol for v, h in pts)
+        if bad:
+            return {'required': 'heights affine and increasing in the values', 'observed': str(pts)[:160],
+                    'sig': dict(sig, clause='affine')}
     return None
 
 
@@ -1045,9 +1084,9 @@ def _oracle_cases(ctx):
     for c in HP_CORPUS:
         yield 'hp', c
     yield 'hp', HP_SAMEDAY
-    for _ in range(600 if big else 110):
+    for _ in range(600 if big else 120):
         yield 'hp', _hp_case(rng)
-    for _ in range(150 if big else 30):
+    for _ in range(150 if big else 20):
         yield 'hp', _same_day_number_case(rng, rev=rng.random() < 0.8)
     yield 'hist', {'bins': [0, 1, 2, 3], 'vals': [0, 0, 0.9, 1, 1.5, 1.99, 2, 3]}
     for _ in range(4000 if big else 500):
@@ -1071,4 +1110,5 @@ def _oracle_cases(ctx):
 
 
 def oracle(ctx):
-    run_oracle_cases(ctx, _oracle_cases(ctx), check_case)
+    with contextlib.redirect_stdout(io.StringIO()):
+        run_oracle_cases(ctx, _oracle_cases(ctx), check_case)
